@@ -416,6 +416,8 @@ def channels(ctx, mod, rows, when):
     n = 0
 
     def bad(name, channel, observed, expected):
+        if sum(1 for v in ctx.violations if v.key.startswith("C20:channel:")) >= 8:
+            return
         ctx.violation(f"C20:channel:{name}:{channel}",
             f"constant {name} read through {channel} ({when}) gives {observed}, its attributes (checked against the reference) give {expected}",
             {"kind": "violation", "item": name, "input": {"constant": name, "channel": channel, "when": when},
@@ -488,6 +490,8 @@ def reference_recheck(ctx, rows, when):
             continue
         rel = sympy.N(r["si"] / refs[n] - 1, 50)
         tol = max([x for x in (tols.get(n), r["stated"]) if x is not None])
+        if sum(1 for v in ctx.violations if v.key.startswith("C20:reread:")) >= 6:
+            return
         if abs(rel) > tol or tuple(r["dim"]) != tuple(dims[n]):
             ctx.violation(f"C20:reread:{n}", f"constant {n} read {when} = {sympy.N(r['si'], 15)} with dimension "
                 f"{[str(x) for x in r['dim']]}; reference {sympy.N(refs[n], 15)} {[str(x) for x in dims[n]]} (deviation {float(rel):.3e}, tolerance {float(tol):.3e})",
